@@ -34,14 +34,14 @@ import (
 
 type c31Parent struct{ cnf *conf.Conf }
 
-func (p *c31Parent) Log(logger.Level, string, ...any)                       {}
-func (p *c31Parent) APIConfigSnapshot() *conf.Conf                          { return p.cnf }
-func (p *c31Parent) APIConfigGlobalPatch(conf.OptionalGlobal) error         { return nil }
-func (p *c31Parent) APIConfigPathDefaultsPatch(conf.OptionalPath) error     { return nil }
-func (p *c31Parent) APIConfigPathsAdd(string, conf.OptionalPath) error      { return nil }
-func (p *c31Parent) APIConfigPathsPatch(string, conf.OptionalPath) error    { return nil }
-func (p *c31Parent) APIConfigPathsReplace(string, conf.OptionalPath) error  { return nil }
-func (p *c31Parent) APIConfigPathsDelete(string) error                      { return nil }
+func (p *c31Parent) Log(logger.Level, string, ...any)                      {}
+func (p *c31Parent) APIConfigSnapshot() *conf.Conf                         { return p.cnf }
+func (p *c31Parent) APIConfigGlobalPatch(conf.OptionalGlobal) error        { return nil }
+func (p *c31Parent) APIConfigPathDefaultsPatch(conf.OptionalPath) error    { return nil }
+func (p *c31Parent) APIConfigPathsAdd(string, conf.OptionalPath) error     { return nil }
+func (p *c31Parent) APIConfigPathsPatch(string, conf.OptionalPath) error   { return nil }
+func (p *c31Parent) APIConfigPathsReplace(string, conf.OptionalPath) error { return nil }
+func (p *c31Parent) APIConfigPathsDelete(string) error                     { return nil }
 
 func c31Scratch() string {
 	if d := os.Getenv("C31_SCRATCH"); d != "" {
